@@ -593,5 +593,34 @@ theorem partialRun_no_panic {m : Mdl} (hwf : WFG m.g) (hwo : WFGo m.g) (opsOk : 
       · rw [h]; rfl
       · rw [h]; rfl
 
+/-! ## The executable graph checks are sound -/
+
+theorem mem_opNodes {g : Graph} {i : Nat} {op : OpNode} (h : getOp g i = some op) : (i, op) ∈ opNodes g := by
+  unfold opNodes
+  rw [List.mem_filterMap]
+  exact ⟨i, List.mem_range.mpr (getOp_lt h), by simp [h]⟩
+
+theorem wfgB_sound {g : Graph} (h : wfgB g = true) : WFG g := by
+  intro i op hop d hd
+  exact List.all_eq_true.mp (List.all_eq_true.mp h _ (mem_opNodes hop)) d hd
+
+theorem wfgoB_sound {g : Graph} (h : wfgoB g = true) : WFGo g := by
+  intro i op hop o ho
+  exact List.all_eq_true.mp (List.all_eq_true.mp h _ (mem_opNodes hop)) o ho
+
+theorem uniqueProducerB_sound {g : Graph} (h : uniqueProducerB g = true) : UniqueProducer g := by
+  intro p op v hop hv
+  have := List.all_eq_true.mp (List.all_eq_true.mp h _ (mem_opNodes hop)) v hv
+  simpa using this
+
+theorem outsValueB_sound {g : Graph} (h : outsValueB g = true) :
+    ∀ i op, getOp g i = some op → ∀ o ∈ opOutputs op, getNode g o = some .value := by
+  intro i op hop o ho
+  have := List.all_eq_true.mp (List.all_eq_true.mp h _ (mem_opNodes hop)) o ho
+  unfold isValueB at this
+  cases hn : getNode g o with
+  | none => simp [hn] at this
+  | some nd => cases nd <;> simp_all
+
 end RtenVerif.PlanCache
 
